@@ -43,7 +43,8 @@ pub struct CoroutinePool<'p> {
     //工作协程组
     workers: Scheduler<'p>,
     //当前协程数
-    running: AtomicUsize,
+    //shared with the worker coroutines, which keep the count of the pool they run in up to date
+    running: Arc<AtomicUsize>,
     //尝试取出任务失败的次数
     pop_fail_times: AtomicUsize,
     //最小协程数，即核心协程数
@@ -132,7 +133,7 @@ impl<'p> CoroutinePool<'p> {
         CoroutinePool {
             state: Cell::new(PoolState::Running),
             workers,
-            running: AtomicUsize::new(0),
+            running: Arc::new(AtomicUsize::new(0)),
             pop_fail_times: AtomicUsize::new(0),
             min_size: AtomicUsize::new(min_size),
             max_size: AtomicUsize::new(max_size),
@@ -369,10 +370,21 @@ impl<'p> CoroutinePool<'p> {
             return Ok(());
         }
         let create_time = now();
+        let mut counted_in = self.running.clone();
         self.submit_co(
             move |suspender, ()| {
                 loop {
                     let pool = Self::current().expect("current pool not found");
+                    if !Arc::ptr_eq(&counted_in, &pool.running) {
+                        // this worker was stolen by the scheduler of another pool: from now
+                        // on it is a worker of the pool that runs it, not of the one that
+                        // created it
+                        _ = counted_in.fetch_update(Ordering::AcqRel, Ordering::Acquire, |n| {
+                            Some(n.saturating_sub(1))
+                        });
+                        _ = pool.running.fetch_add(1, Ordering::Release);
+                        counted_in = pool.running.clone();
+                    }
                     if pool.try_run().is_some() {
                         pool.reset_pop_fail_times();
                         continue;
